@@ -628,6 +628,13 @@ TEXTS = [b"hello", b"hi there", b"how are you?", b"caf\xc3\xa9 au lait", b"\xc3\
 BAN_MASKS = [b"*!*@*", b"alice!*@*", b"*!*@10.0.0.*", b"foo*", b"*[1]*", b"a.b*", b"(", b"x", b"*!a@*", b"bob*!*@*",
              b"*!*@2001:db8::*", b"*", b"**", b"\\"]
 MAX_USER_LEN = 32
+
+
+def cap_user(u):
+    """cmd_user.go: strings.ToValidUTF8(u[:maxUserLen], "") when u is longer than maxUserLen bytes"""
+    if len(u) <= MAX_USER_LEN:
+        return u
+    return u[:MAX_USER_LEN].decode("utf-8", "ignore").encode("utf-8")
 CLIENT_COMMANDS = ["NICK", "USER", "PASS", "QUIT", "SERVER", "JOIN", "PART", "KICK", "MODE", "TOPIC", "INVITE", "PRIVMSG",
                    "NOTICE", "WHO", "WHOIS", "NAMES", "LIST", "ISON", "USERHOST", "AWAY", "PING", "MOTD", "OPER", "KILL",
                    "GLINE", "KNOCK", "NICKSERV", "CHANSERV", "OPERSERV", "MEMOSERV", "HOSTSERV", "BOTSERV", "NS", "CS",
@@ -982,6 +989,10 @@ class Gen(object):
             return line
         if cmd == "USER":
             u = r.choice([b"u", b"alice", b"~bob", b"\xc3\xbcser", b"a!b", b"x@y", b"root"])
+            if r.random() < 0.25:
+                # around and beyond the maxUserLen cut, with multi-byte characters across it
+                u = r.choice([b"a" * r.randint(30, 34), b"a" * r.randint(29, 32) + b"\xc3\xa9" * 3, b"\xe2\x82\xac" * r.randint(10, 12),
+                              b"a" * 31 + b"\xf0\x9f\x98\x80x", b"u" * r.choice([33, 64, 200, 480])])
             s.user = s.user or u
             if s.nick:
                 s.reg = True
@@ -2429,7 +2440,7 @@ def mon_c12(tr):
             # what the line itself changes before any reply is rendered (cmdUser / cmdNick of a session that is not
             # yet registered: no NICK event is announced for it)
             if cmd == b"USER" and len(ps) >= 3:
-                a["user"] = ps[0][:MAX_USER_LEN]   # cmd_user.go keeps at most maxUserLen bytes (fix 53999a9)
+                a["user"] = cap_user(ps[0])   # cmd_user.go keeps at most maxUserLen bytes, whole characters only
                 pre_applied = True
             elif cmd == b"NICK" and ps and ps[0] and not any(m.command in (b"431", b"432", b"433") for m in st.msgs) \
                     and not any(m.command == b"NICK" and m.prefix is not None for m in st.msgs):
